@@ -50,11 +50,18 @@ def fixed_cases(tier):
                         continue
                     ent["regex"] = br[rid]["regex"]["values"][0]
                 out.append({"k": "fix", "file": cand[0], "level": 0, "lseed": 0, "style": None, "conf": {"rule": {rid: dict(ent, disable=False)}}})
+    # seed-independent near-valid mutants (same on every run)
+    small = corpus.small_files(120)
+    for i in range(1500 if tier == "quick" else 12000):
+        out.append({"k": "mut", "file": small[(i * 7919) % len(small)], "mseed": common.stable_seed("mut", i), "style": None if i % 3 else "jcl"})
+    if tier == "thorough":
+        for k in range(4):
+            out.append({"k": "atheris", "seed": k, "runs": 12000})
     return out
 
 
 def n_generated(tier):
-    return 1500 if tier == "quick" else 50000
+    return 900 if tier == "quick" else 6000
 
 
 def strategy(tier):
@@ -95,6 +102,8 @@ def on_timeout(case, tier, exc=None):
 def run_case(case, tier):
     if case.get("k") == "mut":
         return _mut(case, tier)
+    if case.get("k") == "atheris":
+        return _atheris(case, tier)
     res, obs = fixprops.run_props(case, tier, ("C19",), lambda obs, new: bool(obs.get("fired")), False)
     # check mode on the same input
     if not (obs.get("rejected") or obs.get("config_error") or obs.get("oracle_disagreement")):
@@ -198,3 +207,55 @@ def shrink(case, sig, tier, budget):
         c["k"] = "fix"
         return fixprops.shrink_generic(run_case, c, sig, tier, budget)
     return case
+
+
+def _atheris(case, tier):
+    """coverage-guided campaign (atheris/libFuzzer) on the classifier with structured mutations; sites already listed in
+    known_findings.jsonl (known or fixed) are excluded inside the target and counted, so the campaign continues behind them"""
+    import json
+    import subprocess
+    import sys
+
+    res = {"labels": {}, "nontrivial": [], "failures": [], "evals": 0}
+    known = []
+    kf = os.path.join(vsgapi.VERIF, "known_findings.jsonl")
+    for l in open(kf):
+        l = l.strip()
+        if not l:
+            continue
+        d = json.loads(l)
+        if d["property"] != "C19":
+            continue
+        sig = dict(x.split("=", 1) for x in d["signature"].split("|"))
+        if sig.get("kind") == "hang":
+            known.append("hang|" + sig["where"])
+        elif "exc" in sig and "where" in sig:
+            known.append("%s|%s" % (sig["exc"], sig["where"]))
+    seeds = [corpus.path(f) for f in corpus.small_files(150)[:: max(1, len(corpus.small_files(150)) // 80)]]
+    d = os.path.join(vsgapi.scratch_dir(), "ath_%d_%d" % (os.getpid(), case["seed"]))
+    os.makedirs(d, exist_ok=True)
+    env = dict(os.environ)
+    env["VERIF_KNOWN_SITES"] = json.dumps(known)
+    env["VERIF_FUZZ_SEEDS"] = os.pathsep.join(seeds)
+    env["VERIF_REPO"] = vsgapi.REPO
+    env["VERIF_FUZZ_GUARD"] = "30"
+    env.pop("VERIF_FUZZ_COLLECT", None)
+    p = subprocess.run([sys.executable, os.path.join(vsgapi.VERIF, "harness", "fuzz", "classify_atheris.py"), "-runs=%d" % case["runs"], "-seed=%d" % (1000 + case["seed"] + int(os.environ.get("VERIF_SEED", "1")) * 16), "-max_len=64", "-timeout=600"], cwd=d, env=env, capture_output=True, timeout=3000)
+    err = p.stderr.decode("utf-8", "replace")
+    stats = {}
+    for line in err.split("\n"):
+        if line.startswith("VERIF-FUZZ-STATS "):
+            stats = json.loads(line[len("VERIF-FUZZ-STATS "):])
+        if line.startswith("VERIF-FUZZ-FINDING "):
+            kind, payload = line[len("VERIF-FUZZ-FINDING "):].split(" ", 1)
+            text = json.loads(payload)["text"]
+            # hand the input to the ordinary mutant path: same oracle, same signatures, confirmation in a fresh process
+            r = _mut({"k": "mut", "text": text, "style": None}, tier)
+            res["failures"].extend(r["failures"])
+    res["evals"] = stats.get("runs", 0) or 1
+    res["labels"]["atheris_runs"] = stats.get("runs", 0)
+    res["labels"]["atheris_rejected_inputs"] = stats.get("rejected", 0)
+    res["labels"]["atheris_excluded_known_sites"] = stats.get("excluded_known", 0)
+    res["nontrivial"] = ["ath%d_%d" % (case["seed"], i) for i in range(stats.get("rejected", 0))]
+    res["sample"] = {"kind": "atheris", "runs": stats.get("runs", 0), "rejected": stats.get("rejected", 0), "excluded_known_sites": stats.get("excluded_known", 0), "known_sites": len(known)}
+    return res
